@@ -1,108 +1,289 @@
-/-! Feasibility prototype (scratch): `BinaryQuadraticModel.from_file` (format v2) as a reader over
-    bytes with visible short reads.  Floats are opaque payloads; JSON parsing is an oracle that
-    succeeds exactly when the complete JSON text is present (contract, see DESIGN section 7). -/
+import DimodModel.FileReader
+import Generated.FileConsts
 
-abbrev Bytes := List UInt8
+/-! # BQM (format v1, v2) and QM files: `to_file` as a byte-producing function, `from_file` as a
+    reader program  (C09 / C10)
 
-inductive FErr | value | structErr | json | index
-  deriving Repr, DecidableEq
+Mirrors `dimod/binary/binary_quadratic_model.py:to_file/from_file`,
+`dimod/quadratic/quadratic_model.py:to_file/from_file`, `cyqm_template.pyx.pxi:_ivartypes_load /
+_ilower_triangle_load`, `cyqmbase_template.pyx.pxi:_ivarinfo/_ineighborhood`,
+`cybqm_template.pyx.pxi:_ilinear_and_degree`.
 
-/-- reader state: remaining bytes -/
-abbrev Rd (α : Type) := Bytes → Except FErr (α × Bytes)
+* floats are opaque payloads of `dsize` bytes (4 or 8); the loader adds each payload to a fresh
+  `0.0`, which returns the payload (IEEE: `0.0 + x = x` bit for bit unless `x = -0.0`; the harness
+  never writes `-0.0`);
+* JSON text (the header dictionary, the `VARS` array) is produced by Python and given to the
+  encoder as bytes; `json.loads` is a parameter of the decoder (`parse…`);
+* the quadratic part of a model is kept as the per-variable *lower triangle*
+  (`lower[v] = [(u, bias) | u < v]`, `u ≤ v` for a QM), which is what `from_file` feeds to
+  `add_quadratic_from_arrays` / `add_quadratic_back`; that those calls rebuild the symmetric
+  adjacency is C04's model, not this one;
+* `np.searchsorted(outvar, v, side='right')` is modelled by its contract on sorted input: the
+  length of the longest prefix with entries `≤ v`. -/
 
-def rdRead (n : Nat) : Rd Bytes := fun s => .ok (s.take n, s.drop n)
+namespace FileFmt
 
-def leNat (b : Bytes) : Nat := b.foldr (fun x acc => x.toNat + 256 * acc) 0
-
-/-- two's complement little-endian int32 -/
-def leInt32 (b : Bytes) : Int :=
-  let u := leNat b
-  if u < 2147483648 then u else (u : Int) - 4294967296
-
-structure Header where
-  nvars : Nat
-  ninter : Nat
-  dsize : Nat          -- bias item size (4 or 8)
-  hasVars : Bool
-  jsonLen : Nat        -- length of the JSON object text (up to and incl. the closing brace)
+/-- the `variables` entry of a header dictionary: a boolean (v2, QM) or the label list (v1) -/
+inductive VarsField (J : Type) where
+  | flag (b : Bool)
+  | labels (l : List J)
   deriving Repr
 
-structure Decoded where
+/-- Python truthiness of `data['variables']` -/
+def VarsField.truthy : VarsField J → Bool
+  | .flag b => b
+  | .labels l => !l.isEmpty
+
+/-- the fields of a BQM / QM / expression header dictionary the loaders use -/
+structure QHeader (J : Type) where
+  nvars : Nat
+  ninter : Nat
+  dsize : Nat          -- itemsize of `dtype`
+  isize : Nat          -- itemsize of `itype`
+  nsize : Nat          -- itemsize of `ntype` (BQM only)
+  vartype : Nat        -- BQM only: 0 = SPIN, 1 = BINARY  (passed through)
+  vars : VarsField J
+  deriving Repr
+
+/-- what `to_file` reads out of a model and `from_file` puts back -/
+structure QContent where
   offset : Bytes
   linear : List Bytes
-  quad : List (Nat × Nat × Bytes)   -- (row, col, bias) lower triangle as loaded
-  labelsPresent : Bool
+  lower : List (List (Nat × Bytes))
   deriving Repr, DecidableEq
 
-def magic : Bytes := "DIMODBQM".toUTF8.toList
-def varsMagic : Bytes := "VARS".toUTF8.toList
+/-- QM only: (vartype code, lower bound, upper bound) per variable -/
+abbrev VarInfo := List (UInt8 × Bytes × Bytes)
 
-/-- `read_header`: prefix, 2 version bytes, u32 length, JSON (oracle `hdr`) -/
-def readHeader (hdr : Header) : Rd Header := fun s => do
-  let (p, s) ← rdRead 8 s
-  if p ≠ magic then throw .value
-  let (_ver, s) ← rdRead 2 s
-  let (lenb, s) ← rdRead 4 s
-  if lenb.length < 4 then throw .structErr
-  let hlen := leNat lenb
-  let (js, s) ← rdRead hlen s
-  -- json.loads succeeds iff the whole object text is there (trailing newline/padding optional)
-  if js.length < hdr.jsonLen then throw .json
-  pure (hdr, s)
+/-! magic strings, section tags and length-field widths come from the source under test
+    (`lean/Generated/FileConsts.lean`, rewritten by `harness/translators/fileconsts.py`) -/
+def bqmPrefix : Bytes := Gen.bqmPrefix
+def qmPrefix : Bytes := Gen.qmPrefix
+def exprPrefix : Bytes := Gen.exprPrefix
+def cqmPrefix : Bytes := Gen.cqmPrefix
+def dqmPrefix : Bytes := Gen.dqmPrefix
+def magVARS : Bytes := Gen.magVARS
+def magVTYP : Bytes := Gen.magVTYP
+def magOFFS : Bytes := Gen.magOFFS
+def magLINB : Bytes := Gen.magLINB
+def magNEIG : Bytes := Gen.magNEIG
+def magINDX : Bytes := Gen.magINDX
+def magQUAD : Bytes := Gen.magQUAD
+def magBIAS : Bytes := Gen.magBIAS
+/-- `Section.NUM_LENGTH_BYTES` -/
+abbrev nlb4 : Nat := Gen.numLengthBytes
+/-- `QuadraticSection.NUM_LENGTH_BYTES` -/
+abbrev nlb8 : Nat := Gen.quadNumLengthBytes
 
-/-- np.frombuffer(data, dtype=record of size `rs`): error unless the length is a multiple of `rs` -/
-def frombuffer (data : Bytes) (rs : Nat) : Except FErr (List Bytes) :=
-  if rs = 0 then .ok [] else
-  if data.length % rs ≠ 0 then .error .value else
-  let rec chunks (fuel : Nat) (d : Bytes) : List Bytes :=
-    match fuel with
-    | 0 => []
-    | f+1 => if d.isEmpty then [] else d.take rs :: chunks f (d.drop rs)
-  .ok (chunks (data.length / rs) data)
+/-! ## neighbourhoods -/
 
-def readNeighborhoods (dsize : Nat) (nvars ninter : Nat) (nidx : List Int) :
-    Nat → List (Nat × Nat × Bytes) → Rd (List (Nat × Nat × Bytes))
-  | v, acc => fun s =>
-    if h : v < nvars then
-      let here := nidx.getD v 0
-      let degI : Int := if v + 1 < nvars then nidx.getD (v+1) 0 - here else 2 * (ninter : Int) - here
-      if degI = 0 then readNeighborhoods dsize nvars ninter nidx (v+1) acc s
-      else do
-        -- a negative degree makes `file.read(negative)` read everything; not reachable from truncation
-        let deg := degI.toNat
-        let (raw, s) ← rdRead (deg * (4 + dsize)) s
-        let recs ← frombuffer raw (4 + dsize)
-        if recs.length ≠ deg then throw .value
-        let outvars := recs.map fun r => (leInt32 (r.take 4), r.drop 4)
-        -- searchsorted(outvar, v, side='right'): entries with index ≤ v
-        let lower := outvars.filter fun p => p.1 ≤ (v : Int)
-        let acc := acc ++ lower.map fun p => (p.1.toNat, v, p.2)
-        readNeighborhoods dsize nvars ninter nidx (v+1) acc s
-    else .ok (acc, s)
-termination_by v _ => nvars - v
+/-- the part of `v`'s neighbourhood above the diagonal: every `(v, b) ∈ lower[w]` seen from `v` -/
+def upperFrom (v : Nat) : Nat → List (List (Nat × Bytes)) → List (Nat × Bytes)
+  | _, [] => []
+  | w, row :: rows => ((row.filter fun p => p.1 = v).map fun p => (w, p.2)) ++ upperFrom v (w + 1) rows
 
-def decode (hdr : Header) (varsJsonLen : Nat) : Rd Decoded := fun s => do
-  let (h, s) ← readHeader hdr s
-  let (off, s) ← rdRead h.dsize s
-  if off.length < h.dsize then throw .value
-  if h.nvars = 0 then
-    -- labels: `data['variables']` is False for an empty model
-    pure ({ offset := off, linear := [], quad := [], labelsPresent := false }, s)
+def upperOf (lower : List (List (Nat × Bytes))) (v : Nat) : List (Nat × Bytes) := upperFrom v 0 lower
+
+/-- `_ineighborhood(v)`: the whole sorted neighbourhood -/
+def neigh (lower : List (List (Nat × Bytes))) (v : Nat) : List (Nat × Bytes) :=
+  lower.getD v [] ++ upperOf lower v
+
+def encRec (isz : Nat) (p : Nat × Bytes) : Bytes := toLE isz p.1 ++ p.2
+
+def encNeigh (isz : Nat) (l : List (Nat × Bytes)) : Bytes := (l.map (encRec isz)).flatten
+
+/-- the neighbourhoods of the variables `v, v+1, …` whose lower triangles are `rows` -/
+def allNeighFrom (lower : List (List (Nat × Bytes))) : Nat → List (List (Nat × Bytes)) → List (List (Nat × Bytes))
+  | _, [] => []
+  | v, row :: rows => (row ++ upperOf lower v) :: allNeighFrom lower (v + 1) rows
+
+/-- `_ineighborhood(v)` for every variable, in order -/
+def allNeigh (lower : List (List (Nat × Bytes))) : List (List (Nat × Bytes)) := allNeighFrom lower 0 lower
+
+/-- `_ilinear_and_degree()`: running sum of degrees and the linear bias, per variable -/
+def linDeg (nsz : Nat) : Nat → List (List (Nat × Bytes)) → List Bytes → List Bytes
+  | _, _, [] => []
+  | acc, [], b :: bs => (toLE nsz acc ++ b) :: linDeg nsz acc [] bs
+  | acc, nb :: nbs, b :: bs => (toLE nsz acc ++ b) :: linDeg nsz (acc + nb.length) nbs bs
+
+/-! ## BQM `to_file` -/
+
+/-- body of a BQM file after the header, before the optional `VARS` section: offset, linear data
+    with neighbourhood starts, then every neighbourhood -/
+def bqmBodyBytes (isz nsz : Nat) (c : QContent) : Bytes :=
+  c.offset ++ ((linDeg nsz 0 (allNeigh c.lower) c.linear).flatten ++
+    ((allNeigh c.lower).map (encNeigh isz)).flatten)
+
+/-- `BinaryQuadraticModel.to_file(version=…)`.  `hdrText` is the JSON text of the header
+    dictionary, `h` its value, `varsText = json.dumps(variables.to_serializable())` -/
+def bqmEncode (maj : UInt8) (hdrText : Bytes) (h : QHeader J) (c : QContent) (varsText : Bytes) : Bytes :=
+  makeHeader bqmPrefix maj 0 hdrText ++ (bqmBodyBytes h.isize h.nsize c ++
+    (if maj ≥ 2 && h.vars.truthy then sectionDumps magVARS nlb4 varsText else []))
+
+/-! ## BQM `from_file` -/
+
+/-- `degree` of each variable from the neighbourhood starts (`ldata['nidx']`) -/
+def degrees (ninter : Nat) : List Int → List Int
+  | [] => []
+  | [a] => [2 * (ninter : Int) - a]
+  | a :: b :: t => (b - a) :: degrees ninter (b :: t)
+
+/-- one record of a neighbourhood: (outvar, bias) -/
+def decRec (isz : Nat) (r : Bytes) : Int × Bytes := (leInt (r.take isz), r.drop isz)
+
+/-- the `for v in range(num_variables)` loop of `from_file` -/
+def bqmNeighLoop (isz dsz : Nat) : Nat → List Int → Prog (List (List (Nat × Bytes)))
+  | _, [] => .ret []
+  | v, d :: ds =>
+    if d = 0 then (bqmNeighLoop isz dsz (v + 1) ds).bind fun rest => .ret ([] :: rest)
+    else if d < 0 then .fail .value     -- read(negative) returns everything; shape[0] != degree
+    else (Prog.readExact (d.toNat * (isz + dsz)) .value).bind fun raw =>
+      let recs := (chunksN (isz + dsz) d.toNat raw).map (decRec isz)
+      let low := recs.takeWhile fun p => p.1 ≤ (v : Int)
+      if low.any (fun p => p.1 = (v : Int) || p.1 < 0) then .fail .value   -- self-loop / negative index
+      else (bqmNeighLoop isz dsz (v + 1) ds).bind fun rest => .ret ((low.map fun p => (p.1.toNat, p.2)) :: rest)
+
+/-- what `from_file` returns -/
+structure QLoaded (J : Type) where
+  hdr : QHeader J
+  content : QContent
+  labels : Option (List J)
+  deriving Repr
+
+/-- `VariablesSection.load` -/
+def varsLoads (parseVars : Bytes → Option (List J)) (d : Bytes) : Res (List J) :=
+  if d.any (fun b => b ≥ 128) then .err .unicode else      -- data.decode('ascii')
+  match parseVars d with
+  | none => .err .json
+  | some l => .ok l
+
+def varsLoad (parseVars : Bytes → Option (List J)) : Prog (List J) :=
+  sectionLoadWith magVARS nlb4 (varsLoads parseVars)
+
+/-- the labels step at the end of `from_file` -/
+def bqmFinish (parseVars : Bytes → Option (List J)) (ver : List Nat) (h : QHeader J) (c : QContent) : Prog (QLoaded J) :=
+  if h.vars.truthy then
+    if tupleLt ver [2, 0] then
+      match h.vars with
+      | .labels l => .ret { hdr := h, content := c, labels := some l }
+      | .flag _ => .fail .type          -- iterating `True`
+    else (varsLoad parseVars).bind fun l => .ret { hdr := h, content := c, labels := some l }
+  else .ret { hdr := h, content := c, labels := none }
+
+/-- linear data and neighbourhoods (`if num_variables:`) -/
+def bqmLinQuad (h : QHeader J) : Prog (List Bytes × List (List (Nat × Bytes))) :=
+  if h.nvars = 0 then .ret ([], [])
   else
-    let (lraw, s) ← rdRead (h.nvars * (4 + h.dsize)) s
-    let lrecs ← frombuffer lraw (4 + h.dsize)
-    if lrecs.length ≠ h.nvars then throw .value
-    let nidx := lrecs.map fun r => leInt32 (r.take 4)
-    let lin := lrecs.map fun r => r.drop 4
-    let (quad, s) ← readNeighborhoods h.dsize h.nvars h.ninter nidx 0 [] s
-    if h.hasVars then
-      let (m, s) ← rdRead 4 s
-      if m ≠ varsMagic then throw .value
-      let (lb, s) ← rdRead 4 s
-      -- np.frombuffer(...)[0]: IndexError on empty, ValueError on 1..3 bytes
-      if lb.length = 0 then throw .index
-      if lb.length < 4 then throw .value
-      let (js, s) ← rdRead (leNat lb) s
-      if js.length < varsJsonLen then throw .json
-      pure ({ offset := off, linear := lin, quad := quad, labelsPresent := true }, s)
-    else pure ({ offset := off, linear := lin, quad := quad, labelsPresent := false }, s)
+    (Prog.readExact (h.nvars * (h.nsize + h.dsize)) .value).bind fun lraw =>
+    (bqmNeighLoop h.isize h.dsize 0
+        (degrees h.ninter ((chunksN (h.nsize + h.dsize) h.nvars lraw).map fun r => leInt (r.take h.nsize)))).bind fun low =>
+    .ret ((chunksN (h.nsize + h.dsize) h.nvars lraw).map (fun r => r.drop h.nsize), low)
+
+def bqmBody (parseVars : Bytes → Option (List J)) (ver : List Nat) (h : QHeader J) : Prog (QLoaded J) :=
+  (Prog.readExact h.dsize .value).bind fun off =>
+  (bqmLinQuad h).bind fun ll =>
+  bqmFinish parseVars ver h { offset := off, linear := ll.1, lower := ll.2 }
+
+def bqmDecode (parse : Bytes → Option (QHeader J)) (parseVars : Bytes → Option (List J)) : Prog (QLoaded J) :=
+  (readHeader bqmPrefix parse).bind fun vh =>
+  if !tupleLt vh.1 [3, 0] then .fail .value else bqmBody parseVars vh.1 vh.2
+
+/-! ## the raw buffer loaders (`boundscheck(False)` loops)
+
+`guard = true` is the code with a length check between `np.frombuffer` and the loop (the D12
+repair); `guard = false` is the loop as originally written: it indexes `range(n)` into an array
+that is shorter than `n` when the buffer is, which is undefined behaviour (`Res.ub`). -/
+
+/-- `arr = np.frombuffer(buff[:rs*n], dtype)`, then `for i in range(n): use arr[i]` -/
+def rawRecords (guard : Bool) (rs : Nat) (buff : Bytes) (n : Nat) : Res (List Bytes) :=
+  match frombuffer rs (buff.take (rs * n)) with
+  | .ok recs =>
+    if recs.length = n then .ok recs
+    else if guard then .err .value
+    else .ub
+  | .err e => .err e
+  | .ub => .ub
+
+/-- `cyQM._ivartypes_load(buff, num_variables)` (also `cyCQM._ivarinfo_load`) -/
+def ivartypesLoad (guard : Bool) (dsz : Nat) (buff : Bytes) (n : Nat) : Res VarInfo :=
+  (rawRecords guard (1 + 2 * dsz) buff n).map fun recs =>
+    recs.map fun r => (r.headD 0, (r.drop 1).take dsz, r.drop (1 + dsz))
+
+def encVarInfo (vi : VarInfo) : Bytes := (vi.map fun t => t.1 :: (t.2.1 ++ t.2.2)).flatten
+
+/-! ## QM `to_file` -/
+
+def encInt64 (n : Nat) : Bytes := toLE 8 n
+
+/-- `NeighborhoodSection.dump_data(vi=…)`: int64 count, then the lower-triangle records -/
+def neigData (isz : Nat) (row : List (Nat × Bytes)) : Bytes := encInt64 row.length ++ encNeigh isz row
+
+def qmNeigSections (isz : Nat) : List (List (Nat × Bytes)) → Bytes
+  | [] => []
+  | row :: rows => sectionDumps magNEIG nlb4 (neigData isz row) ++ qmNeigSections isz rows
+
+def qmEncode (hdrText : Bytes) (h : QHeader J) (vi : VarInfo) (c : QContent) (varsText : Bytes) : Bytes :=
+  makeHeader qmPrefix 1 0 hdrText ++
+  sectionDumps magVTYP nlb4 (encVarInfo vi) ++
+  sectionDumps magOFFS nlb4 c.offset ++
+  sectionDumps magLINB nlb4 c.linear.flatten ++
+  qmNeigSections h.isize c.lower ++
+  (if h.vars.truthy then sectionDumps magVARS nlb4 varsText else [])
+
+/-! ## QM `from_file` -/
+
+/-- `OffsetSection.loads_data`: `np.frombuffer(data[:itemsize], dtype)[0]` -/
+def offsLoads (dsz : Nat) (d : Bytes) : Res Bytes :=
+  match frombuffer dsz (d.take dsz) with
+  | .ok [] => .err .index
+  | .ok (x :: _) => .ok x
+  | .err e => .err e
+  | .ub => .ub
+
+/-- `LinearSection.loads_data`: `np.frombuffer(data[:n*itemsize], dtype)` (may be shorter) -/
+def linbLoads (dsz n : Nat) (d : Bytes) : Res (List Bytes) := frombuffer dsz (d.take (n * dsz))
+
+def zeroBias (dsz : Nat) : Bytes := List.replicate dsz 0
+
+/-- `add_linear_from_array` on a fresh range-labelled model with `n` variables: a shorter array
+    leaves the remaining biases at zero -/
+def padLinear (dsz n : Nat) (arr : List Bytes) : List Bytes :=
+  arr ++ List.replicate (n - arr.length) (zeroBias dsz)
+
+/-- `NeighborhoodSection.loads_data` + `_ilower_triangle_load(vi, count, buff)` -/
+def neigLoads (isz dsz : Nat) (d : Bytes) : Res (List (Nat × Bytes)) :=
+  if (d.take 8).length < 8 then .err .structErr else
+  let count := leInt (d.take 8)
+  let buff := d.drop 8
+  if count * ((isz + dsz : Nat) : Int) > (buff.length : Int) then .err .runtime else
+  .ok ((chunksN (isz + dsz) count.toNat buff).map fun r => ((leInt (r.take isz)).toNat, r.drop isz))
+
+def qmNeigLoop (isz dsz : Nat) : Nat → Prog (List (List (Nat × Bytes)))
+  | 0 => .ret []
+  | k + 1 => (sectionLoadWith magNEIG nlb4 (neigLoads isz dsz)).bind fun row =>
+      (qmNeigLoop isz dsz k).bind fun rest => .ret (row :: rest)
+
+structure QmLoaded (J : Type) where
+  hdr : QHeader J
+  varinfo : VarInfo
+  content : QContent
+  labels : Option (List J)
+  deriving Repr
+
+def qmFinish (parseVars : Bytes → Option (List J)) (h : QHeader J) (vi : VarInfo) (c : QContent) : Prog (QmLoaded J) :=
+  if h.vars.truthy then
+    (varsLoad parseVars).bind fun l => .ret { hdr := h, varinfo := vi, content := c, labels := some l }
+  else .ret { hdr := h, varinfo := vi, content := c, labels := none }
+
+def qmBody (guard : Bool) (parseVars : Bytes → Option (List J)) (h : QHeader J) : Prog (QmLoaded J) :=
+  (sectionLoadWith magVTYP nlb4 fun d => ivartypesLoad guard h.dsize d h.nvars).bind fun vi =>
+  (sectionLoadWith magOFFS nlb4 (offsLoads h.dsize)).bind fun off =>
+  (sectionLoadWith magLINB nlb4 (linbLoads h.dsize h.nvars)).bind fun lin =>
+  (qmNeigLoop h.isize h.dsize h.nvars).bind fun low =>
+  qmFinish parseVars h vi { offset := off, linear := padLinear h.dsize h.nvars lin, lower := low }
+
+def qmDecode (guard : Bool) (parse : Bytes → Option (QHeader J)) (parseVars : Bytes → Option (List J)) : Prog (QmLoaded J) :=
+  (readHeader qmPrefix parse).bind fun vh =>
+  if tupleLt [2, 0] vh.1 then .fail .value else qmBody guard parseVars vh.2
+
+end FileFmt
